@@ -48,6 +48,9 @@ def cases(tier, seed):
         if R < 3 * np.degrees(hp.nside2resol(2 ** d)):
             continue
         yield "polygon", dict(ci=ci, n=n, R=R, depth=d, winding=w)
+    for k in range(len(INT_CENTRES)):
+        for d in (4, 8):
+            yield "inttypes", dict(k=k, depth=d)
     # small polygons at the deepest levels (vertices a few arcmin apart)
     small = [(0.12, 12), (0.12, 11)] if tier == "quick" else [(0.05, 12), (0.12, 12), (0.12, 11), (0.2, 11), (0.2, 10)]
     for ci, n, (R, d), w in itertools.product(range(len(centres(seed))), NGON, small, ["ccw", "cw"]):
@@ -169,5 +172,59 @@ def ev_polygon(case, ctx):
     ctx.outcome("poly_in=%d,far=%d" % (min(1, int(np.sum(ans_in))), min(1, int(np.sum(beyond)))))
 
 
+INT_CENTRES = [(0, 0), (1, 0), (3, -1), (6, 1), (0, 1), (2, 0)]      # radians, whole numbers
+
+
+def ev_inttypes(case, ctx):
+    """whole-number coordinates (the origin!) handed over as Python ints / integer arrays mean the same as the floats"""
+    depth = case["depth"]
+    k = case["k"]
+    ra_i, dec_i = INT_CENTRES[k]
+    rad = 0.1
+    sig = "inttypes:centre=(%d,%d)rad,depth=%d" % (ra_i, dec_i, depth)
+    ctx.count("inttypes")
+    ctx.nontrivial(sig)
+    ref = Region(maxdepth=depth)
+    ref.add_circles(float(ra_i), float(dec_i), rad)
+    want = set(int(p) for p in ref.get_demoted())
+    flav = dict(python_int=(ra_i, dec_i), int_list=([ra_i], [dec_i]), int64_array=(np.array([ra_i], dtype=np.int64), np.array([dec_i], dtype=np.int64)),
+                int32_array=(np.array([ra_i], dtype=np.int32), np.array([dec_i], dtype=np.int32)))
+    for fname, (a, b) in flav.items():
+        try:
+            r = Region(maxdepth=depth)
+            r.add_circles(a, b, rad if fname == "python_int" else [rad])
+            got = set(int(p) for p in r.get_demoted())
+        except Exception as e:
+            ctx.violation("add_circles with the centre given as %s raised %r (%s)" % (fname, e, sig), "int_raise|%s,%s" % (sig, fname))
+            continue
+        if got != want:
+            ctx.violation("add_circles(%r, %r, 0.1 rad): the region built from %s coordinates has %d pixels, %d in common with the region built "
+                          "from the same numbers as floats (%d pixels)" % (ra_i, dec_i, fname, len(got), len(got & want), len(want)), "int_build|%s,%s" % (sig, fname))
+        # queries: the centre and a far point, asked with the same flavours
+        try:
+            ans_f = np.asarray(ref.sky_within(float(ra_i), float(dec_i)), dtype=bool)
+            ans_i = np.asarray(ref.sky_within(a, b), dtype=bool)
+            far_f = np.asarray(ref.sky_within(float(ra_i), float(-dec_i if dec_i else 1)), dtype=bool)
+            far_i = np.asarray(ref.sky_within(a, (-dec_i if dec_i else 1) if fname == "python_int" else (np.asarray(b) * 0 + (-dec_i if dec_i else 1)).astype(np.asarray(b).dtype)), dtype=bool)
+        except Exception as e:
+            ctx.violation("sky_within with %s coordinates raised %r (%s)" % (fname, e, sig), "int_raise|%s,%s" % (sig, fname))
+            continue
+        if not (ans_f.all() and ans_i.all() and not far_f.any() and not far_i.any()):
+            ctx.violation("sky_within at the circle's centre (%d, %d) rad: %r for floats, %r for %s; at a far point: %r / %r" % (
+                ra_i, dec_i, ans_f.tolist(), ans_i.tolist(), fname, far_f.tolist(), far_i.tolist()), "int_query|%s,%s" % (sig, fname))
+    # a polygon with whole-number vertices
+    verts = [(0, 0), (1, 0), (1, 1)]
+    try:
+        pf = Region(maxdepth=min(depth, 6))
+        pf.add_poly([(float(x), float(y)) for x, y in verts])
+        pi_ = Region(maxdepth=min(depth, 6))
+        pi_.add_poly(verts)
+        if set(int(p) for p in pf.get_demoted()) != set(int(p) for p in pi_.get_demoted()):
+            ctx.violation("add_poly with whole-number vertices given as ints builds another region than the same vertices as floats (%s)" % sig, "int_poly|" + sig)
+    except Exception as e:
+        ctx.violation("add_poly with integer vertices raised %r (%s)" % (e, sig), "int_raise|%s,poly" % sig)
+    ctx.outcome("inttypes")
+
+
 def evaluate(clause, case, ctx):
-    dict(circle=ev_circle, polygon=ev_polygon)[clause](case, ctx)
+    dict(circle=ev_circle, polygon=ev_polygon, inttypes=ev_inttypes)[clause](case, ctx)
